@@ -237,10 +237,35 @@ def path_environ(seed):
     if rng.random() < 0.4 and seed % 97 != 0 and seed % 291 != 1:
         parts = [p for p in parts if p["kind"] == "field"]  # -> urlencoded form
     pairs = [(_text(rng), _text(rng)) for _ in range(rng.choice([0, 1, 2, 4]))]
-    err, pf, pu, args = "", [], [], []
+    err, pf, pu, args, style = "", [], [], [], 0
     try:
         from werkzeug.datastructures import MultiDict
-        b = EnvironBuilder(method="POST", data=_values_multidict(parts), query_string=MultiDict(pairs))
+        style = rng.choice([0, 0, 0, 1, 2, 3]) if seed % 97 != 0 and seed % 291 != 1 else 0
+        if not any(p["kind"] == "file" for p in parts):
+            style = 0
+        if style == 0:
+            b = EnvironBuilder(method="POST", data=_values_multidict(parts), query_string=MultiDict(pairs))
+        else:
+            # the same set given through the builder's attributes instead of data=: filled in place, or one of
+            # form / files assigned wholesale after the other was filled (histories of two operations on one builder)
+            from werkzeug.datastructures import FileMultiDict
+            fields = MultiDict([(p["name"], p["data"]) for p in parts if p["kind"] == "field"])
+            fmd = FileMultiDict()
+            for p in parts:
+                if p["kind"] == "file":
+                    fmd.add_file(p["name"], io.BytesIO(p["data"]), p["fname"], p["ctype"])
+            b = EnvironBuilder(method="POST", query_string=MultiDict(pairs))
+            if style == 1:
+                for k, v in fields.items(multi=True):
+                    b.form.add(k, v)
+                for k, v in fmd.items(multi=True):
+                    b.files.add(k, v)
+            elif style == 2:
+                b.files = fmd
+                b.form = fields
+            else:
+                b.form = fields
+                b.files = fmd
         env = b.get_environ()
         req = Request(env)
         pf, pu = _collect(req.form, req.files)
@@ -250,7 +275,8 @@ def path_environ(seed):
     except Exception as ex:
         err = type(ex).__name__
         enc_qs = ""
-    intended = _intended_grouped(parts)
+    intended = _intended_grouped(parts) if style == 0 else (
+        _intended_grouped([p for p in parts if p["kind"] == "field"]) + _intended_grouped([p for p in parts if p["kind"] == "file"]))
     from werkzeug.datastructures import MultiDict
     ipairs = list(MultiDict(pairs).items(multi=True))
     out = []
@@ -300,9 +326,45 @@ def path_model(case):
              "parsed": [{"kind": "wire", "name": [], "fname": [], "ctype": [], "data": list(wire)}]}]
 
 
+CHARSETS = [("utf-8", "utf-8"), ("UTF-8", "utf-8"), ("Utf-8", "utf-8"), ("iso-8859-1", "latin-1"), ("ISO-8859-1", "latin-1"),
+            ("Iso-8859-1", "latin-1"), ("us-ascii", "ascii"), ("US-ASCII", "ascii"), ("ascii", "ascii"), ("ASCII", "ascii")]
+
+
+def path_charset(seed):
+    """Field parts that declare their own charset (Content-Type: text/plain; charset=...; MIME charset names are
+    case-insensitive) -> MultiPartParser: the text comes back for every charset the parser supports, in any spelling."""
+    from werkzeug.datastructures import Headers
+    from werkzeug.formparser import MultiPartParser
+    from werkzeug.sansio.multipart import Data, Epilogue, Field, MultipartEncoder, Preamble
+
+    rng = random.Random(seed ^ 0x5EED)
+    bnd = b"CharsetPart" + str(seed % 1000).encode()
+    parts, evs = [], [Preamble(data=b"")]
+    for _ in range(rng.choice([1, 2, 3])):
+        label, codec = rng.choice(CHARSETS)
+        alpha = {"utf-8": "a\u00e9\u20ac\U0001f600\u4e2d -", "latin-1": "a\u00e9\u00fc\u00ff\u00a0 -", "ascii": "abc -~"}[codec]
+        text = "".join(rng.choice(alpha) for _ in range(rng.randint(0, 12)))
+        name = rng.choice(["a", "b", "c"])
+        quoted = rng.random() < 0.3
+        h = Headers([("Content-Type", f'text/plain; charset="{label}"' if quoted else f"text/plain; charset={label}")])
+        evs += [Field(name=name, headers=h), Data(data=text.encode(codec), more_data=False)]
+        parts.append({"kind": "field", "name": name, "fname": "", "ctype": "", "data": text})
+    evs.append(Epilogue(data=b""))
+    err, pf = "", []
+    try:
+        enc = MultipartEncoder(bnd)
+        wire = b"".join(enc.send_event(e) for e in evs)
+        form, files = MultiPartParser().parse(io.BytesIO(wire), bnd, len(wire))
+        pf, _ = _collect(form, files)
+    except Exception as ex:
+        err = type(ex).__name__
+    return [{"op": "rt", "path": "part-charset/field", "bnd": [], "err": err,
+             "intended": [_enc_part(p, False) for p in _intended_grouped(parts)], "parsed": [_enc_part(p, False) for p in pf]}]
+
+
 def _dispatch(job):
     kind, arg = job
-    return {"sansio": path_sansio, "testenc": path_testenc, "environ": path_environ, "model": path_model}[kind](arg)
+    return {"sansio": path_sansio, "testenc": path_testenc, "environ": path_environ, "model": path_model, "charset": path_charset}[kind](arg)
 
 
 def run(ctx: Ctx):
@@ -328,6 +390,8 @@ def run(ctx: Ctx):
     jobs = [("model", c) for c in model_cases]
     for i in range(n):
         jobs += [("sansio", ctx.seed * 1000003 + i), ("testenc", ctx.seed * 1000003 + i), ("environ", ctx.seed * 1000003 + i)]
+        if i % 5 == 0:
+            jobs.append(("charset", ctx.seed * 1000003 + i))
     results = pmap(_dispatch, jobs, workers=ctx.workers, chunksize=32)
     lines, cases = [], {}
     for t, (job, out) in enumerate(zip(jobs, results)):
